@@ -102,6 +102,7 @@ class RabbitAdapter(Adapter):
         from repid.message import MessageCategory
         self.MC = MessageCategory
         self.broker, self.ch, self.srv = fa.mk_broker()
+        self.srv.confirm_turns = getattr(self, "confirm_turns", 0)
         await self.broker.queue_declare("default")
         self.cons = {}
         self.started = set()
@@ -200,6 +201,9 @@ def run_history(S, backend="mem", steps=3, pre=1, ops_allowed=None, cancel_last=
     model = Model()
     trace = []
     S.tag("backend", backend)
+    if backend == "rabbit":
+        # RabbitMQ may deliver a published message before the publisher confirm returns, or after
+        A.confirm_turns = [0, 3][S.pick("confirm_after_delivery", 2)]
 
     def params_for(loop, delayed, tag):
         now = T0 + int(loop.time().f * SEC)
